@@ -99,6 +99,19 @@ def run_case(rng, tier, case):
             mon_mapping_asset(case, ev)
             if len(ev.snap.c):
                 n_assets_with_vars += 1
+    # the mapping stays the description of the problem when the problem is used: an (ordinary or relaxed) optimize call leaves vectors, rows and every
+    # mapping column - boolean flags included - as assembled
+    if not split and r.ok and r.op is not None and gen.is_mip(spec) and rng.random() < 0.3:
+        from ..canon import Snap, problem_diff
+        before = Snap(r.op)
+        try:
+            with attach.paused(), env.quiet():
+                r.op.optimize(make_soft_problem=True)
+            d_ = problem_diff(Snap(r.op), before, rtol=0., compare_mapping=True)
+            flags_same = ('bool' not in before.mapping.columns) or bool((Snap(r.op).mapping['bool'].fillna(False).astype(bool).values == before.mapping['bool'].fillna(False).astype(bool).values).all())
+            case.check('problem.unchanged_by_relaxed_optimize', d_ is None and flags_same, diff=d_, boolean_flags_kept=flags_same)
+        except Exception as e:
+            case.event('relaxed_optimize_failed:' + type(e).__name__)
     # periodic assets: "its cost is that the asset computed for it" - a joined variable stands for the steps its mapping rows name, so it
     # carries the sum of the costs the same asset WITHOUT the option computes for these steps (one-variable-per-step forms)
     if not split and r.ok:
